@@ -236,7 +236,8 @@ package hessian
 
 //@ func decodeStringValue
 //@   requires flag == -1 || (0 <= flag && flag <= 255)
-//@   assigns @pos, @E, @declared
+//@   assigns @pos, @E, @declared, @lastreader
+//@   sets @lastreader = 10
 //@   loop 1 invariant [C03,C09:str-chunk-own-length] len(buf) == @declared
 //@   loop 1 invariant [C14,C06:str-consumes] flag == -1 ==> @pos >= old(@pos) + 1
 //@   loop 1 decreases len(@in) - @pos
@@ -245,7 +246,8 @@ package hessian
 
 //@ func decodeBinaryValue
 //@   requires flag == -1 || (0 <= flag && flag <= 255)
-//@   assigns @pos, @E, @declared
+//@   assigns @pos, @E, @declared, @lastreader
+//@   sets @lastreader = 9
 //@   loop 1 invariant [C03,C09:bin-chunk-own-length] len(buf) == @declared
 //@   loop 1 decreases len(@in) - @pos
 //@   proves [C03,C06:bin-ends-at-final-chunk] err == nil && @pos < len(@in) ==> G.isBinFinal(tag)
